@@ -177,6 +177,53 @@ pub fn op_fragdec(args: &[&str]) -> String {
     )
 }
 
+/// `fragdecr <cuts> <sync|fsm> <sink kind> <blob> <bs> <ranges> <sources> <stream> <fill>`: as `decr`
+/// (decode_ranges on a borrowed reader, the response possibly followed by more bytes), fragmented transport;
+/// `rest` = what the caller's reader still holds afterwards
+pub fn op_fragdecr(args: &[&str]) -> String {
+    let cuts = parse_cuts(args[0]);
+    let fl = args[1];
+    let kind = args[2];
+    let data = blob(args[3]);
+    let bs = bs_of(args[4]);
+    let ranges = ranges_arg(args[5]);
+    let (stream, digs) = build_stream(args[6], args[7]);
+    let fill: u8 = args[8].parse().unwrap();
+    let root = blake3::hash(&data);
+    let tree = BaoTree::new(data.len() as u64, bs);
+    let ob0 = vec![0xAAu8; tree.outboard_size() as usize];
+    let mut target = vec![fill; data.len()];
+    let rest;
+    let (r, ob) = match fl {
+        "sync" => {
+            let mut rd = FragRead { data: stream.clone(), pos: 0, cuts, calls: 0 };
+            let res = with_sync_store!(kind, root, tree, ob0, |o| sync::decode_ranges(&mut rd, &ranges, &mut target, &mut o));
+            rest = stream.len() - rd.pos;
+            res
+        }
+        _ => {
+            let mut t = BytesMut::from(&target[..]);
+            let mut rd = iroh_io::TokioStreamReader::new(FragAsyncRead { data: stream.clone(), pos: 0, cuts, armed: false, polls: 0 });
+            let res = with_fsm_store!(kind, root, tree, ob0, |o| block_on(fsm::decode_ranges(&mut rd, ranges.clone(), &mut t, &mut o)));
+            target = t.to_vec();
+            rest = stream.len() - rd.into_inner().pos;
+            res
+        }
+    };
+    let term = match r {
+        Ok(()) => "Done".to_string(),
+        Err(e) => dec_err(&e),
+    };
+    format!(
+        "{} {} {} src={} rest={}",
+        term,
+        dig(&target),
+        dig(&ob),
+        if digs.is_empty() { "-".into() } else { digs.join(";") },
+        if term == "Done" { rest.to_string() } else { "_".into() }
+    )
+}
+
 /// `fragob <sync|fsm> <cuts> <blob> <bs> <pre|post>`: outboard creation from a fragmented data source
 pub fn op_fragob(args: &[&str]) -> String {
     let cuts = parse_cuts(args[1]);
@@ -541,7 +588,10 @@ pub fn op_faults(args: &[&str]) -> String {
         let mut k = 0;
         while k < n {
             let mut toks = Vec::new();
-            for kind in ["Other", "UnexpectedEof", "ConnectionReset", "WriteZero"] {
+            // "Eof": the data source / stream simply ends at this read (a short read, not an error)
+            let eof_applies = (*obj == "data" || *obj == "r") && name != "mixed";
+            let kinds: &[&str] = if eof_applies { &["Other", "UnexpectedEof", "ConnectionReset", "WriteZero", "Eof"] } else { &["Other", "UnexpectedEof", "ConnectionReset", "WriteZero"] };
+            for &kind in kinds {
                 let spec_s = spec.to_string();
                 let obj_s = obj.to_string();
                 let kk = kind_of(kind);
